@@ -125,7 +125,16 @@ impl Block for SymbolSync {
 
         let mut n = 0; // Samples consumed.
         let mut opos = 0; // Current output position.
-        let olen = o.len();
+        let olen = match &out_clock {
+            Some(c) => std::cmp::min(o.len(), c.len()),
+            None => o.len(),
+        };
+        if olen == 0 {
+            // `dst` has room (checked above), so the clock stream is full.
+            if let Some(clock) = &self.out_clock {
+                return Ok(BlockRet::WaitForStream(clock, 1));
+            }
+        }
         let oslice = o.slice();
         for sample in input.iter() {
             if opos == olen {
